@@ -546,6 +546,45 @@ def r20_11(ck: Check) -> None:
         ck.ok("R20.11", "no networking class keeps mutable per-instance state in a class-level attribute", "%d modules" % len(mods), "")
 
 
+def r20_12(ck: Check) -> None:
+    """the handlers of the per-connection catch-all are the last line of defence: what they do themselves must not fail. Allowed there:
+    logging, formatting the exception, `disconnect` (which has its own catch-all), and calls the may-raise summaries clear; not allowed:
+    look-ups by key / index, augmented stores into containers, raise statements."""
+    q = LPQ + "handle_remote_peer_selector_event"
+    fi = ck.repo.functions[q]
+    s = ck.summ(q, 0)
+    mr = MayRaise(ck.walker)
+    construct = "handle_remote_peer_selector_event: the catch-all's own handlers cannot fail"
+    problems: List[Tuple[str, str]] = []
+    n_handlers = 0
+    raw = ck.repo.raw_function(fi)
+    for tr in [n for n in ast.walk(raw) if isinstance(n, ast.Try)]:
+        for h in tr.handlers:
+            n_handlers += 1
+            for st in h.body:
+                for n in ast.walk(st):
+                    if isinstance(n, ast.Subscript):
+                        problems.append(("%s:%d" % (fi.module.path, n.lineno), "%s can raise KeyError / IndexError" % ast.unparse(n)[:60]))
+                    elif isinstance(n, ast.Raise):
+                        problems.append(("%s:%d" % (fi.module.path, n.lineno), "a raise statement"))
+    for e in s.events:
+        if e.kind != "call" or e.chain or not any(c.prov == "handler" for c in e.pc):
+            continue
+        if LPQ + "disconnect" in e.targets:
+            continue
+        r, why = mr.event(e)
+        if r:
+            problems.append((e.loc, "%s may raise (%s)" % (show(e.term)[:60], why[:80])))
+    if n_handlers < 1:
+        ck.unknown("R20.12", construct, "no exception handler found in the function that is the per-connection catch-all")
+        return
+    if problems:
+        for where, what in problems[:4]:
+            ck.violated("R20.12", construct, "%s — an exception here escapes into the event loop, which ends for every connection" % what, where)
+    else:
+        ck.ok("R20.12", construct, "%d handlers" % n_handlers, fi.loc)
+
+
 def check(ck: Check) -> None:
     ck.explanations.append(
         "C20: exception containment (every peer-driven call and every may-raise call of the selector-event handler is inside a non-re-raising "
@@ -560,6 +599,7 @@ def check(ck: Check) -> None:
     ck.run("R20.9", "outgoing dials are capped below the descriptor limit", lambda: r20_9(ck))
     ck.run("R20.10", "nothing outside the per-connection catch-all decodes what peers sent", lambda: r20_10(ck))
     ck.run("R20.11", "per-connection state is per connection", lambda: r20_11(ck))
+    ck.run("R20.12", "the catch-all's handlers cannot fail themselves", lambda: r20_12(ck))
     ck.run("R20.8", "the event loop ends only through its flag, dispatches every ready socket, and never waits unboundedly", lambda: r20_8(ck))
     from .c09 import r09_5
     ck.run("R09.5", "buffering a block before validation writes nothing", lambda: r09_5(ck))
